@@ -15,7 +15,7 @@ def queries(tier):
     for alloc in (0, 2, 4, 8):
         for op, c in LOPS.items():
             qs.append(Query("lmq-%s-alloc%d" % (op, alloc), "c18/lmq_step.c", env=ENV, defs={"ALLOC": alloc, "OP": c},
-                            unwind=20, params={"structure": "lmq", "op": op, "alloc": alloc}))
+                            unwind=20, mem_gb=(24 if op == "resize" else 6), timeout=300, params={"structure": "lmq", "op": op, "alloc": alloc}))
     # ---- idhash: concrete histories (real set/remove build the table), symbolic key for the last op
     IENV = ENV + ["env_aio.c"]
     K = [1, 9, 17, 6, 14, 2]   # 1,9,17 collide mod 8; ID_NEXT(1)=6 so chains cross 6/14
